@@ -260,6 +260,11 @@ class Checker(object):
                 return
             specs.append(s)
         extra = [t for s in specs for t in spec_terms(s)]
+        # a soft clause added to the goal object after it has been used
+        more = None
+        if mode == 'optimize' and specs[0][0] == 'maxsmt':
+            more = (prob.bool_term(1), rng.randint(1, 4))
+            extra.append(more[0])
         case = {'assertions': [B.to_json(a) for a in prob.assertions],
                 'goals': [(s[0], repr(s[1])[:200], s[2]) for s in specs],
                 'mixin': mixin, 'strategy': strategy, 'mode': mode,
@@ -357,6 +362,36 @@ class Checker(object):
                                      [B.show(a, 60) for a in prob.assertions],
                                      repr(specs[0])[:200]), case)
                     rep.count('optima_compared')
+            if more is not None and not unsat:
+                # the same goal object, one more soft clause, again
+                spec2 = ('maxsmt', list(specs[0][1]) + [more], False)
+                mgr = env.formula_manager
+                try:
+                    goals[0].add_soft_clause(
+                        B.build(more[0], env),
+                        mgr.Real(more[1]) if real_w else mgr.Int(more[1]))
+                    with warnings.catch_warnings():
+                        warnings.simplefilter('ignore')
+                        res2 = solver.optimize(goals[0], strategy=strategy)
+                except Exception as e:
+                    self.bad(tag + '/raises/' + common.exc_name(e),
+                             'second optimisation of an extended goal '
+                             'raised %r at %s' % (e, common.tb_short(e)),
+                             case)
+                    return
+                rep.count('goal_reused_after_addition')
+                exp2 = best(spec2)
+                got2 = None if res2 is None else cost_to_int(res2[1], spec2)
+                I2 = None if res2 is None else self.check_model(
+                    tag, prob, res2[0], env, extra, case)
+                if got2 != exp2 or (I2 is not None and
+                                    goal_value(spec2, I2)[0] != exp2):
+                    self.bad(tag + '/not-optimal/maxsmt-goal-extended',
+                             'after add_soft_clause on a goal that was '
+                             'already optimised: cost %s, true optimum %s '
+                             '(clause %s weight %d)' % (
+                                 got2, exp2, B.show(more[0], 60), more[1]),
+                             case)
         elif mode == 'boxed':
             if unsat != (res is None):
                 self.bad(tag + '/no-solution-mismatch', 'returned %s, %d '
